@@ -83,7 +83,7 @@ pub fn case(words: &[u16]) -> Case {
                 ver
             })
             .collect();
-        cas.push(Ca { parent, key: i, module, not_after: 86400 * 365, cert_fault: None, versions, extra_res: None });
+        cas.push(Ca { parent, key: i, module, not_after: 86400 * 365, cert_fault: None, versions, extra_res: None, ta_alt: vec![] });
         presence.push(if parent.is_some() && d.chance(1, 2) { patterns[d.below(6)].to_vec() } else { vec![true; 3] });
     }
     // a moved CA: same key and parent as an existing non-root CA, another module, complementary presence
@@ -111,7 +111,7 @@ pub fn case(words: &[u16]) -> Case {
         let publish = cas.iter().map(|ca| s.min(ca.versions.len() - 1)).collect();
         let fail_modules = (0..MODULES).filter(|_| d.chance(1, 8)).collect();
         let offline = s > 0 && d.chance(1, 10);
-        steps.push(Step { publish, fail_modules, offline, stale: None });
+        steps.push(Step { publish, fail_modules, offline, stale: None, foreign_tal_key: vec![], ta_serve: vec![] });
         let mode = if s == 0 || !d.chance(1, 3) { Mode::Normal } else { d.pick(&[Mode::ForcedRetry, Mode::ForcedFatal, Mode::Initial, Mode::PointBlocked(0), Mode::PointBlocked(1), Mode::PointBlocked(2)]) };
         modes.push(match mode {
             Mode::PointBlocked(_) => Mode::PointBlocked(d.below(8) as u8),
@@ -369,7 +369,7 @@ fn prop(c: &Case, info: &mut CaseInfo) -> Verdict {
                                 // cannot tell which TA from the hashed name; leave ta_stored as is unless the file count covers all roots
                                 let files = after.iter().filter(|p| p.starts_with("stored/ta/") && !p.ends_with('/')).count();
                                 if files == sc.cas.iter().filter(|c| c.parent.is_none()).count() {
-                                    state.ta_stored.insert(r);
+                                    state.ta_store.insert((r, 0), 0);
                                 }
                             }
                         }
